@@ -45,3 +45,21 @@ Print Assumptions C09_flag_cleared_only_by_install.
 Theorem C09_invariant_reachable : forall ops, inv (run empty_store ops).
 Proof. exact inv_reachable. Qed.
 Print Assumptions C09_invariant_reachable.
+
+(* Second tie (DESIGN 3.5, docs/gotrans.md): Snapshot.Less, SnapshotSet.NewestFull and SnapshotSet.PartitionAtFull as
+   translated from snapshot/snapshot.go on this run are the hand model's dlt and split_at_full (gsnap / gset = the
+   *Snapshot / SnapshotSet of model directories).  Premise: snapshot ids are ordered byte-wise as the sequence
+   numbers the model uses for them. *)
+From Coq Require Import String.
+From RQ Require Import Lib.GoLib Gen.SnapshotSet Proofs.C09_Gen.
+Theorem C09_source_derived_eq : forall (enc : N -> string), (forall a b, String.ltb (enc a) (enc b) = (a <? b)%N) ->
+  (forall a b, Snapshot_Less unit (gsnap enc a) (gsnap enc b) = dlt a b) /\
+  (forall dir l, SnapshotSet_NewestFull unit (gset enc dir l) =
+     match split_at_full l with Some (_, d, _) => (Some (gsnap enc d), true) | None => (None, false) end) /\
+  (forall dir l, SnapshotSet_PartitionAtFull unit (gset enc dir l) =
+     match split_at_full l with
+     | Some (_, d, newer) => (gset enc dir [d], gset enc dir newer)
+     | None => (gempty dir, gempty dir)
+     end).
+Proof. exact gen_catalog_eq. Qed.
+Print Assumptions C09_source_derived_eq.
